@@ -1377,6 +1377,33 @@ func c06Predicates(r *Run) {
 	sort.Strings(undeclared)
 	r.Check("C06.R8", "reasons kept by the conversion ⊆ declared reason constants", r.Prog.Pos(conv.Pos()), shortFunc(conv),
 		"every kept reason is a declared ExtendedDaemonSetStatusReason", len(undeclared) == 0, "undeclared: "+strings.Join(undeclared, ", "))
+	// the set and the API's enumeration of reasons agree on the documented classes ("stuck in an
+	// image/config/hook start error"): the cannot-start set is exactly the declared reasons that name
+	// an image, registry, container-creation or hook error
+	class := func(k string) bool {
+		for _, w := range []string{"Image", "Registry", "CreateContainer", "Hook"} {
+			if strings.Contains(k, w) {
+				return true
+			}
+		}
+		return false
+	}
+	var missing, extra []string
+	for k := range declared {
+		if class(k) && !set[k] {
+			missing = append(missing, k)
+		}
+	}
+	for k := range set {
+		if _, okd := declared[k]; !okd || !class(k) {
+			extra = append(extra, k)
+		}
+	}
+	sort.Strings(missing)
+	sort.Strings(extra)
+	r.Check("C06.R8", "cannot-start set = declared image/registry/container-creation/hook reasons", r.Prog.Pos(member.Pos()), shortFunc(member),
+		"the cannot-start set holds exactly the declared ExtendedDaemonSetStatusReason values that name an image, registry, container-creation or hook error (the documented start errors)",
+		len(missing) == 0 && len(extra) == 0, "missing: "+strings.Join(missing, ", ")+"; not a documented start error: "+strings.Join(extra, ", "))
 }
 
 // c06SetOfMembership reads the key set of `func(reason string) bool { _, ok := G[reason]; return ok }`.
